@@ -1594,6 +1594,14 @@ func genEncoding(repo string) (string, error) {
 			r.guard, r.guardSrc, r.konst, r.message = g.count, g.src, g.konst, g.message
 		}
 		rows = append(rows, r)
+		// any other place that appends to a function's VarRefs (varStore.packageVarRef since ccfaf1d) adds
+		// a closure variable after setFunctionVarRefs has sized the table: a further site of the same
+		// table, whose index travels in the same operands (theorem sites_agree: the same bound)
+		for _, o := range rows {
+			if o.table == "VarRefs" {
+				o.table, o.width, o.codec, o.readers = "ClosureVars", w, "i16", readers["Globals"]
+			}
+		}
 	}
 
 	// select cases: guard in emitSelect, capacity = reflect.Select's 65536 minus the cases the VM adds
